@@ -106,6 +106,25 @@ func famSchnorrHonest(k *mon.Case) {
 	} else if scramble(kbuf); pp.X().Cmp(refP.X) != 0 || !bytes.Equal(schnorr.SerializePubKey(pub), pk32) {
 		k.Failf("aliasing:schnorr.ParsePubKey:result-retains-caller-slice", "pub=%x", pk32)
 	}
+	// key objects that are not points of the curve - the zero value, the coordinates (0, 0) that a degenerate sum of keys
+	// has in btcec: lift_x fails for them, so nothing verifies, in particular not (x(s*G), s), which needs no secret
+	{
+		fs := randScalar(r)
+		R := refec.MulG(fs)
+		if !refec.HasEvenY(R) {
+			fs = new(big.Int).Sub(refec.N, fs)
+		}
+		fb := append(refec.Bytes32(R.X), refec.Bytes32(fs)...)
+		var zero btcec.FieldVal
+		if forged, err := schnorr.ParseSignature(fb); err == nil {
+			for name, key := range map[string]*btcec.PublicKey{"zero-value": new(btcec.PublicKey), "NewPublicKey(0,0)": btcec.NewPublicKey(&zero, &zero)} {
+				if forged.Verify(msg, key) || sig.Verify(msg, key) {
+					k.Failf("schnorr:Verify:accepts-key-object-not-on-curve:"+name, "msg=%x sig=%x verifies under a public key object that is not a point of the curve", msg, fb)
+				}
+				k.Count("schnorr.verify.key-object-not-on-curve", 1)
+			}
+		}
+	}
 	g.check(k, "schnorr.Sign/Verify")
 	k.Count("schnorr.sign", 1)
 	k.Count(fmt.Sprintf("schnorr.sign.mode%d", mode), 1)
